@@ -14,7 +14,9 @@ RULE = ("case = random schema x %d valid documents (every composite selection al
         "a value drawn from a universe of %d adversarial factories (all JSON shapes, bool/int/float at and beyond 32-bit and "
         "IEEE limits, NaN/inf, numeric/blank/unicode/huge strings, bytes, tuples/sets/generators/views, Decimal/Fraction, "
         "datetimes, objects whose __str__/__bool__/__eq__/__float__ raise, subclasses of int/str/float, enums, exception "
-        "instances and classes, callables, closed coroutines, self-referential and deep containers). Oracle: execute "
+        "instances and classes incl. unprintable ones and the library's MultipleException, callables, closed coroutines, "
+        "self-referential and deep containers; a third of the worlds hand out the SAME object whenever a field instance is "
+        "reached again). Oracle: execute "
         "returns; response envelope; json.dumps(allow_nan=False) succeeds; structural conformance of data to schema + "
         "selection (exact collected key list per concrete type, lists, non-null, leaf wire kinds, enum membership, "
         "possible types); every error path points at a null/hidden position; a non-null resolver return that shows up as "
